@@ -202,8 +202,58 @@ def run_reprs(_):
     a, b2 = R(), R()
     a.me, b2.me = b2, a
     cases.append(("mutual reference", a))
+    # children rendered inside a parent (compact and indented forms): every slot x child kind x padding that forces indentation
+    @spec_class(key="k", bootstrap=True)
+    class K:
+        k: str
+        v: int = 0
+
+    @spec_class(key="k", frozen=True)
+    class FK:
+        k: str = "fk"
+        w: List[int] = []
+
+    def kid(kind):
+        if kind == "keyed":
+            return K("a")
+        if kind == "keyed_key_deleted":
+            x = K("a", v=2)
+            del x.k
+            return x
+        if kind == "frozen_keyed":
+            return FK()
+        if kind == "plain_missing":
+            return R()
+        x = K("b")
+        del x.k
+        return R(me=x)          # a keyed child with a missing key two levels down
+
+    for kind in ("keyed", "keyed_key_deleted", "frozen_keyed", "plain_missing", "nested_keyed_missing"):
+        for slot in ("attr", "list", "dict", "list_in_dict"):
+            for pad in (0, 150):
+                o = R(n=1)
+                if slot == "attr":
+                    o.me = kid(kind)
+                elif slot == "list":
+                    o.kids = [kid(kind), kid(kind)]
+                elif slot == "dict":
+                    o.d = {"a": kid(kind)}
+                else:
+                    o.d = {"a": [kid(kind)], "b": (kid(kind),)}
+                if pad:
+                    o.kids = list(o.kids) + ["x" * pad]
+                cases.append((f"child {kind} in {slot} pad={pad}", o))
     for label, obj in cases:
         rr, names = do_repr(obj)
         out.append({"kind": "repr", "label": label, "c": "R", "repr_res": rr, "repr_names": names})
+        for flag in (True, False):          # the documented indent argument
+            try:
+                text = obj.__repr__(indent=flag)
+                rr2, names2 = "ok", repr_names(text)
+            except RecursionError:
+                rr2, names2 = "RecursionError", []
+            except Exception as e:  # noqa: BLE001
+                rr2, names2 = type(e).__name__, []
+            out.append({"kind": "repr", "label": f"{label} indent={flag}", "c": "R", "repr_res": rr2, "repr_names": names2})
     return out, {"R": {"attrs": ["me", "kids", "d", "hidden", "n"], "compare": {k: True for k in ET_R["attrs"]},
                        "repr": {"me": True, "kids": True, "d": True, "hidden": False, "n": True}, "parents": []}}
